@@ -458,6 +458,11 @@ func New(members ...Member) (Baggage, error) {
 	if n := len(bag.String()); n > maxBytesPerBaggageString {
 		return Baggage{}, fmt.Errorf("%w: %d", errBaggageBytes, n)
 	}
+	for _, m := range bag.Members() {
+		if n := len(m.String()); n > maxBytesPerMembers {
+			return Baggage{}, fmt.Errorf("%w: %d", errMemberBytes, n)
+		}
+	}
 
 	return bag, nil
 }
